@@ -212,92 +212,48 @@ def o22(ctx):
         bad = (rebinding or sets or [fi])[0]
         ctx.finding("starfileio.Token.__init__", bad, "a token must keep the text it was cut from unchanged: text values (quoted names, "
                     "values with leading or trailing characters) are otherwise altered on read while the file is intact", bad, mi)
+    # the text the writer produces (its constant pieces plus the lines of two sample rows; see O2.5 for how it is obtained), tokenised
+    # with the reader's own constants, must come out as: [comments] specifier LITERAL, LOOP, one PROPERTY per column (each followed by its
+    # numbering COMMENT when numbered), then one LITERAL per cell
     m, fn = ctx.prog.func(WR)
-    fvar = None
-    for n in ast.walk(fn):
-        if isinstance(n, ast.With):
-            for it_ in n.items:
-                if isinstance(it_.optional_vars, ast.Name):
-                    fvar = it_.optional_vars.id
-    if fvar is None:
-        raise Unsupported("output file variable of Starfile.write not found", fn)
-    writes = [n for n in ast.walk(fn) if isinstance(n, ast.Call) and isinstance(n.func, ast.Attribute)
-              and n.func.attr == "write" and isinstance(n.func.value, ast.Name) and n.func.value.id == fvar]
-    if len(writes) < 5:
-        raise Unsupported(f"only {len(writes)} file.write call(s) found in Starfile.write", fn)
-    # roles of holes: parameters of the nested label writers
-    label_fns = {}
-    for n in ast.walk(fn):
-        if isinstance(n, ast.FunctionDef) and n is not fn and len(n.args.args) == 2:
-            label_fns[n.name] = [a.arg for a in n.args.args]
-    seen_roles = set()
-    for w in writes:
-        enc = w
-        owner = None
-        p = m.parents.get(w)
-        while p is not None and p is not fn:
-            if isinstance(p, ast.FunctionDef):
-                owner = p
-                break
-            p = m.parents.get(p)
-        tpl = template(w.args[0])
-        fill, roles = "", []
-        for part in tpl:
-            if part[0] == "lit":
-                fill += part[1]
-                continue
-            src, extra = part[1], part[2]
-            if owner is not None and owner.name in label_fns and src in label_fns[owner.name]:
-                role = "label" if label_fns[owner.name].index(src) == 0 else "number"
-                val = "rlnCoordinateX" if role == "label" else "7"
-            elif src == "<row cells>":
-                role, val = "cells", extra.join(["1.5       ", "tomo_a    ", "3         "])
-            elif extra == "?":
-                raise Unsupported(f"file.write argument not recognised: {src}", w)
-            else:
-                # specifier / comment text: decided by what the surrounding literal makes of it
-                role, val = "text", "data_particles"
-            roles.append((role, val, len(fill)))
-            fill += val
-        toks = model_tokenize(fill, c)
-        kinds = [t[0] for t in toks if t[0] != "NEWLINE"]
-        ctx.count(1, {"template": ast.unparse(w.args[0])[:80], "model tokens": toks[:8]})
-        for role, val, pos in roles:
-            seen_roles.add(role)
-            if role == "label":
-                want = ("PROPERTY", c["property"] + val)
-                if want not in toks or toks.index(want) != next((i for i, t in enumerate(toks) if t[0] != "NEWLINE"), None):
-                    ctx.finding(WR, w, f"a column label is written as {fill!r}; the reader's tokenizer recognises a label only as "
-                                f"a token starting with {c['property']!r} at the start of its line (and strips exactly one "
-                                "character)", w, m, tokens=toks)
-            elif role == "number":
-                if any(t[0] in ("LITERAL", "LOOP") for t in toks) or not any(t[0] == "COMMENT" and val in t[1] for t in toks):
-                    ctx.finding(WR, w, f"the column number must be written as a trailing comment ({c['comment']!r}n) after the label; "
-                                f"{fill!r} tokenises to {kinds}", w, m)
-            elif role == "cells":
-                if kinds != ["LITERAL"] * 3 or not fill.endswith(c["linesep"]):
-                    ctx.finding(WR, w, f"a data row must tokenise into one LITERAL per cell followed by a line end; separator "
-                                f"{part[2]!r} gives {kinds}", w, m)
-            elif role == "text":
-                lit_before = fill[:pos]
-                if c["comment"] in lit_before:
-                    if kinds != ["COMMENT"]:
-                        ctx.finding(WR, w, f"comment line {fill!r} is not tokenised as a comment", w, m)
-                else:
-                    if kinds != ["LITERAL"] or ("LITERAL", val) not in toks:
-                        ctx.finding(WR, w, f"block specifier line {fill!r} must tokenise to a single LITERAL equal to the specifier",
-                                    w, m, tokens=toks)
-        if not roles:
-            if kinds not in ([], ["LOOP"]):
-                ctx.finding(WR, w, f"constant output {fill!r} tokenises to {kinds}; expected only line ends or the loop keyword "
-                            f"{c['loop']!r}", w, m)
-            if kinds == ["LOOP"]:
-                seen_roles.add("loop")
-                if not fill.endswith(c["linesep"]):
-                    ctx.finding(WR, w, "the loop keyword must be followed by a line end", w, m)
-    missing = {"label", "number", "cells", "loop", "text"} - seen_roles
-    if missing:
-        raise Unsupported(f"writer templates for roles {sorted(missing)} not found in Starfile.write", fn)
+    COLS = ["rlnCoordinateX", "rlnImageName", "rlnClassNumber"]
+    for number_columns, spec_, comments in ((True, "data_particles", None), (False, "data_particles", None), (True, "data_stopgap_motivelist", None),
+                                           (True, "data_particles", Seq([Seq([K("written by a test")], "list")], "list"))):
+        pieces = _run_writer(ctx, WR, [(spec_, COLS)], number_columns, comments)
+        var = [p_ for p_ in pieces if not p_[0]]
+        if len(var) != 1:
+            raise Unsupported(f"Starfile.write: expected one row line depending on the cells, found {len(var)} variable pieces", fn)
+        k_ = pieces.index(var[0])
+        rows = ""
+        for cells in ((1.5, "tomo_a", 3), (-20.25, "TS_01/rec_001.mrc", 12)):
+            try:
+                ln = tm.evaluate(var[0][1], dict(zip([f"cell0:{x}" for x in COLS], cells)))
+            except tm.EvalError as e:
+                raise Unsupported(f"row line of Starfile.write uses an operation the term evaluator does not interpret: {e}", var[0][2])
+            if not isinstance(ln, str):
+                raise Unsupported("row line of Starfile.write is not a string expression", var[0][2])
+            rows += ln
+        text = "".join(p_[1] for p_ in pieces[:k_]) + rows + "".join(p_[1] for p_ in pieces[k_ + 1:])
+        toks = [t for t in model_tokenize(text, c) if t[0] != "NEWLINE"]
+        numbered = number_columns and "stopgap" not in spec_
+        want = ([("COMMENT", "written by a test")] if comments is not None else []) + [("LITERAL", spec_), ("LOOP", c["loop"])]
+        for i_, name in enumerate(COLS, 1):
+            want.append(("PROPERTY", c["property"] + name))
+            if numbered:
+                want.append(("COMMENT", str(i_)))
+        want += [("LITERAL", None)] * 6
+        ctx.count(1, {"number_columns": number_columns, "block": spec_, "model tokens": toks[:10]})
+        same = len(toks) == len(want) and all(t[0] == w[0] and (w[1] is None or t[1] == w[1]) for t, w in zip(toks, want))
+        if not same:
+            k_bad = next((i_ for i_, (t, w) in enumerate(zip(toks, want)) if not (t[0] == w[0] and (w[1] is None or t[1] == w[1]))), min(len(toks), len(want)))
+            ctx.finding(WR, var[0][2], f"the text written for a block ({'numbered' if numbered else 'un-numbered'} labels) is not tokenised by the reader's "
+                        f"constants into specifier, {c['loop']!r}, labels and one literal per cell: token {k_bad} is "
+                        f"{toks[k_bad] if k_bad < len(toks) else None}, expected {want[k_bad] if k_bad < len(want) else 'end of text'}", var[0][2], m,
+                        text=text[:200])
+        lines_ = text.split(c["linesep"])
+        ctx.count(1)
+        if not any(ln.strip() == c["loop"] for ln in lines_):
+            ctx.finding(WR, var[0][2], "the loop keyword must stand on a line of its own", var[0][2], m)
     # queue discipline of the token list: reversed once, consumed from the end
     rev = [n for n in ast.walk(ft) if isinstance(n, ast.Subscript) and ast.unparse(n.slice) == "::-1"] + \
           [n for n in ast.walk(ft) if isinstance(n, ast.Call) and ((isinstance(n.func, ast.Attribute) and n.func.attr == "reverse")
@@ -359,66 +315,12 @@ def o23(ctx):
         if reorder:
             ctx.finding(WR, st, "the blocks are re-ordered before writing: the file (and what Starfile.read returns) must hold the blocks in the "
                         "order the caller gave, so that position k of the three returned lists is the k-th table written", st, m)
-    # (b) the cell formatter, evaluated
-    fmt_calls = [n for n in ast.walk(fn) if isinstance(n, ast.Call) and isinstance(n.func, ast.Attribute)
-                 and n.func.attr in ("map", "applymap") and n.args and isinstance(n.args[0], ast.Name)
-                 and ctx.prog.has(f"{WR}.{n.args[0].id}")]
-    if not fmt_calls:
-        raise Unsupported("cell formatting call (frame.map(<nested function>)) not found", fn)
-    fq = f"{WR}.{fmt_calls[0].args[0].id}"
-    ctx.touched(fq)
-    mf, ff = ctx.prog.func(fq)
-    it = Interp(ctx.prog)
-    r = it.run(fq, [Val(sym("cell"))], {})
-    term = to_term(r.ret)
-    try:
-        c, _, _ = reader_constants(ctx.prog)
-    except (LinesDropped, CommentWeakened):
-        c = {"property": "_", "loop": "loop_", "comment": "#", "linesep": "\n"}  # reported by O2.2
-    bad = []
-    for v in FLOATS + INTS + TEXTS:
-        try:
-            out = tm.evaluate(term, {"cell": v, "float_precision": 6})
-        except tm.EvalError as e:
-            raise Unsupported(f"cell formatter uses an operation the term evaluator does not interpret: {e}", ff)
-        ctx.count(1, {"cell": v, "formatted": out} if v in (10.0, 2407.986, 7, "abc") else None)
-        tok = out.strip() if isinstance(out, str) else None
-        okv = isinstance(out, str) and tok != "" and not any(ch.isspace() for ch in tok) and c["comment"] not in tok
-        if okv:
-            if isinstance(v, float):
-                try:
-                    okv = abs(float(tok) - round(v, 6)) <= 1e-9 * max(1.0, abs(v))
-                except ValueError:
-                    okv = False
-            elif isinstance(v, int):
-                try:
-                    okv = float(tok) == v
-                except ValueError:
-                    okv = False
-            else:
-                okv = tok == v
-        if not okv:
-            bad.append((v, out))
-    if bad:
-        ctx.finding(fq, ff.body[-1] if ff.body else ff, "the cell text does not read back to the written value: "
-                    + ", ".join(f"{v!r} -> {o!r}" for v, o in bad[:5]), ff, mf, formatter=tm.show(term)[:200])
-    # (c) rows are iterated without the index; labels enumerated from 1 over frame.columns
-    its = [n for n in ast.walk(fn) if isinstance(n, ast.Call) and isinstance(n.func, ast.Attribute) and n.func.attr == "itertuples"]
-    ctx.count(1)
-    if len(its) == 1:
-        idx = kwarg(its[0], "index")
-        if not (isinstance(idx, ast.Constant) and idx.value is False):
-            ctx.finding(WR, its[0], "rows must be iterated with itertuples(index=False): otherwise the row index is written as an "
-                        "extra first cell", its[0], m)
-    else:
-        # rows addressed one by one: by position (iloc / values) is fine, by label (.loc[i], i from range(n)) is a label lookup
-        rng_loops = [n for n in ast.walk(fn) if isinstance(n, ast.For) and isinstance(n.iter, ast.Call) and isinstance(n.iter.func, ast.Name)
-                     and n.iter.func.id == "range" and isinstance(n.target, ast.Name)
-                     and any(isinstance(c, ast.Call) and isinstance(c.func, ast.Attribute) and c.func.attr == "write" for c in ast.walk(n))
-                     and any(isinstance(x, ast.Subscript) and isinstance(x.slice, ast.Name) and x.slice.id == n.target.id for x in ast.walk(n))]
-        if len(rng_loops) != 1:
-            raise Unsupported("row iteration of Starfile.write not recognised (itertuples / positional loop)", fn)
-        lp = rng_loops[0]
+    # (c) rows addressed one by one: by position (iloc / values) is fine, by label (.loc[i], i from range(n)) is a label lookup
+    rng_loops = [n for n in ast.walk(fn) if isinstance(n, ast.For) and isinstance(n.iter, ast.Call) and isinstance(n.iter.func, ast.Name)
+                 and n.iter.func.id == "range" and isinstance(n.target, ast.Name)
+                 and any(isinstance(c, ast.Call) and isinstance(c.func, ast.Attribute) and c.func.attr in ("write", "append") for c in ast.walk(n))
+                 and any(isinstance(x, ast.Subscript) and isinstance(x.slice, ast.Name) and x.slice.id == n.target.id for x in ast.walk(n))]
+    for lp in rng_loops:
         for x in ast.walk(lp):
             if isinstance(x, ast.Subscript) and isinstance(x.slice, ast.Name) and x.slice.id == lp.target.id and isinstance(x.value, ast.Attribute):
                 ctx.count(1)
@@ -426,48 +328,153 @@ def o23(ctx):
                     ctx.finding(WR, x, "rows are fetched with a label lookup (.loc[i], i = 0..n-1): for a table whose index is not 0..n-1 (after a "
                                 "sort or a selection) the rows are written in label order, or the lookup fails -- rows must be taken by position",
                                 x, m)
-                elif x.value.attr not in ("iloc", "iat", "values"):
-                    raise Unsupported("row access in the data loop of Starfile.write not recognised", x)
-    enums = [n for n in ast.walk(fn) if isinstance(n, ast.Call) and isinstance(n.func, ast.Name) and n.func.id == "enumerate"
-             and n.args and ast.unparse(n.args[0]).endswith(".columns")]
+
+
+def o25(ctx):
+    """the text written, decided on what write() hands to the file object (not on how the function is spelled): the function is
+    interpreted with one symbolic block (a text, a float and an integer column, text first) per configuration, every file.write /
+    writelines argument is collected in order, the constant pieces are the header and the one non-constant piece is the line of a
+    generic row as a string expression of its three cells"""
+    m, fn = ctx.prog.func(WR)
+    ctx.touched(WR)
+    writer_text(ctx, WR, m, fn)
+
+
+def _run_writer(ctx, q, blocks, number_columns, comments, precision=None):
+    """-> list of (is_constant, python string | term, node) in the order written"""
+    frames = []
+    for k_, (spec_, cols) in enumerate(blocks):
+        f_ = Frame({c: sym(f"cell{k_}:{c}") for c in cols}, list(cols), prefix=f"cell{k_}:", name=f"block{k_}")
+        f_.space = Space(f"block{k_}", how="root")
+        f_.kinds = {c: ("object" if c in ("txt", "rlnImageName", "grp") else "number") for c in cols}
+        frames.append(f_)
+    it = Interp(ctx.prog)
+    kw = {"specifiers": Seq([K(s_) for s_, _ in blocks], "list"), "number_columns": K(number_columns)}
+    if comments is not None:
+        kw["comments"] = comments
+    if precision is not None:
+        kw["float_precision"] = K(precision)
+    it.run(q, [Seq(frames, "list"), K("out.star")], kw)
+    out = []
+    for e in it.events:
+        if e.kind != "call" or e.name not in ("method:write", "method:writelines"):
+            continue
+        if not (e.args and tm.has_call(to_term(e.args[0]), "open")):
+            continue
+        v = e.args[1] if len(e.args) > 1 else None
+        if v is None:
+            continue
+        if e.name == "method:writelines":
+            items = it.iter_items(v)
+            if items is None:
+                el = getattr(v, "elem", None)  # a comprehension over the rows: its generic element is the line of a row
+                if el is None:
+                    raise Unsupported("lines handed to file.writelines not recognised", e.node)
+                items = [el]
+            for x in items:
+                out.append((is_pyconst(x), pyval(x) if is_pyconst(x) else to_term(x), e.node))
+        else:
+            out.append((is_pyconst(v), pyval(v) if is_pyconst(v) else to_term(v), e.node))
+    return out
+
+
+def writer_text(ctx, q, m, fn):
+    import re as _re
+    COLS = ["txt", "flt", "num"]
+    try:
+        rc, _, _ = reader_constants(ctx.prog)
+    except (LinesDropped, CommentWeakened):
+        rc = {"property": "_", "loop": "loop_", "comment": "#", "linesep": "\n"}  # reported by O2.2
+    for number_columns in (True, False):
+        for spec_ in ("data_particles", "data_stopgap_motivelist"):
+            for comments in (None, Seq([Seq([K("first remark"), K("second")], "list")], "list")):
+                pieces = _run_writer(ctx, q, [(spec_, COLS)], number_columns, comments)
+                var = [p_ for p_ in pieces if not p_[0]]
+                if len(var) != 1:
+                    raise Unsupported(f"Starfile.write: expected one row line depending on the cells, found {len(var)} variable pieces", fn)
+                k_ = pieces.index(var[0])
+                head = "".join(p_[1] for p_ in pieces[:k_])
+                tail = "".join(p_[1] for p_ in pieces[k_ + 1:])
+                lines = head.split("\n")
+                stopgap = "stopgap" in spec_
+                want_numbered = number_columns and not stopgap
+                ctx.count(1, {"number_columns": number_columns, "block": spec_, "comments": comments is not None, "header": head[:120]})
+                # header: [comment lines] specifier, loop_, one label line per column in the table's order
+                body = [ln for ln in lines if ln.strip() and not ln.lstrip().startswith(rc["comment"])]
+                labels = [ln for ln in body if ln.startswith(rc["property"])]
+                if body[:2] != [spec_, rc["loop"]] or body[2:] != labels:
+                    ctx.finding(q, var[0][2], f"the block must open with its specifier line and {rc['loop']!r} followed by the label lines; "
+                                f"written: {body[:5]}", var[0][2], m)
+                    continue
+                parsed = [_re.fullmatch(_re.escape(rc["property"]) + r"(\S+?)(?:\s+" + _re.escape(rc["comment"]) + r"(\d+))?\s*", ln) for ln in labels]
+                if any(p_ is None for p_ in parsed):
+                    ctx.finding(q, var[0][2], f"label lines must read {rc['property']}<name> or {rc['property']}<name> {rc['comment']}<k>; written: {labels}",
+                                var[0][2], m)
+                    continue
+                names = [p_.group(1) for p_ in parsed]
+                nums = [p_.group(2) for p_ in parsed]
+                if names != COLS:
+                    ctx.finding(q, var[0][2], f"the labels must be the table's columns in the table's order {COLS}; written {names} "
+                                "(the cells of a row follow the table's order: labels and values would no longer correspond)", var[0][2], m)
+                if want_numbered and nums != [str(i_ + 1) for i_ in range(len(COLS))]:
+                    ctx.finding(q, var[0][2], f"with number_columns={number_columns} and a {'STOPGAP' if stopgap else 'RELION'} block the labels "
+                                f"must be numbered {rc['comment']}1, {rc['comment']}2, ... in column order; written {labels}", var[0][2], m)
+                if not want_numbered and any(n_ is not None for n_ in nums):
+                    ctx.finding(q, var[0][2], f"with number_columns={number_columns} and a {'STOPGAP' if stopgap else 'RELION'} block the labels "
+                                f"must not be numbered; written {labels}", var[0][2], m)
+                if comments is not None:
+                    cl = [ln for ln in lines if ln.lstrip().startswith(rc["comment"])]
+                    if [c_.lstrip()[len(rc["comment"]):].strip() for c_ in cl] != ["first remark", "second"] or lines.index(cl[0]) > lines.index(spec_):
+                        ctx.finding(q, var[0][2], f"the block's comments must be written as '{rc['comment']} <text>' lines in front of the block; written {cl}",
+                                    var[0][2], m)
+                # the line of a row: one token per cell, in column order, each reading back to the value
+                term = var[0][1]
+                bad = []
+                for tv in TEXTS[:4]:
+                    for fv in FLOATS:
+                        for iv in (INTS[1], INTS[3], INTS[6]) if fv in (10.0, 2407.986) else (INTS[2],):
+                            env = {"cell0:txt": tv, "cell0:flt": fv, "cell0:num": iv}
+                            try:
+                                line = tm.evaluate(term, dict(env))
+                            except tm.EvalError as e:
+                                raise Unsupported(f"row line of Starfile.write uses an operation the term evaluator does not interpret: {e}", var[0][2])
+                            ctx.count(1, {"cells": (tv, fv, iv), "line": line} if (tv, fv) == ("abc", 2407.986) and iv == 7 else None)
+                            okl = isinstance(line, str) and line.endswith("\n") and "\n" not in line[:-1]
+                            toks = line.split() if okl else []
+                            okl = okl and len(toks) == 3 and all(rc["comment"] not in t_ for t_ in toks)
+                            if okl:
+                                try:
+                                    okl = toks[0] == tv and abs(float(toks[1]) - round(fv, 6)) <= 1e-9 * max(1.0, abs(fv)) and float(toks[2]) == iv
+                                except ValueError:
+                                    okl = False
+                            if not okl:
+                                bad.append((env, line))
+                if bad:
+                    ctx.finding(q, var[0][2], "the text of a row does not read back to its cells (one whitespace-separated token per cell, in column "
+                                "order, floats rounded to 6 decimals): " + "; ".join(f"{tuple(e_.values())!r} -> {l_!r}" for e_, l_ in bad[:3]),
+                                var[0][2], m, line=tm.show(term)[:300])
+                if not tail.endswith("\n"):
+                    ctx.finding(q, var[0][2], "a block must end with an empty line", var[0][2], m)
+    # the precision option reaches the rounding
+    pieces = _run_writer(ctx, q, [("data_particles", COLS)], True, None, precision=2)
+    var = [p_ for p_ in pieces if not p_[0]]
+    if len(var) == 1:
+        line = tm.evaluate(var[0][1], {"cell0:txt": "abc", "cell0:flt": 3.14159, "cell0:num": 4})
+        ctx.count(1, {"float_precision": 2, "line": line})
+        if not (isinstance(line, str) and len(line.split()) == 3 and line.split()[1] in ("3.14",)):
+            ctx.finding(q, var[0][2], f"float_precision=2 must round the values to 2 decimals before they are written; 3.14159 is written as {line!r}",
+                        var[0][2], m)
+    # two blocks: written in the order given, each with its own columns
+    pieces = _run_writer(ctx, q, [("data_optics", ["grp", "apix"]), ("data_particles", COLS)], True, None)
+    consts = "".join(p_[1] for p_ in pieces if p_[0])
     ctx.count(1)
-    if len(enums) != 1:
-        raise Unsupported("label loop enumerate(frame.columns, 1) not found", fn)
-    start = enums[0].args[1] if len(enums[0].args) > 1 else kwarg(enums[0], "start")
-    if not (isinstance(start, ast.Constant) and start.value == 1):
-        ctx.finding(WR, enums[0], "column labels are numbered from 1 (#1, #2, ...)", enums[0], m)
-    # (d) header style truth table: numbered iff number_columns and the block is not a STOPGAP block
-    sel = [n for n in ast.walk(fn) if isinstance(n, ast.Assign) and isinstance(n.value, ast.IfExp)
-           and {x.id for x in ast.walk(n.value) if isinstance(x, ast.Name)} >= {"number_columns"}]
-    if len(sel) != 1:
-        raise Unsupported("header-style selection (numbered vs un-numbered) not recognised", fn)
-    e = sel[0].value
-    numbered_fn = None
-    for name, params in ((n.name, n) for n in ast.walk(fn) if isinstance(n, ast.FunctionDef) and n is not fn):
-        for w in ast.walk(params):
-            if isinstance(w, ast.JoinedStr) and any(isinstance(v, ast.FormattedValue) and isinstance(v.value, ast.Name)
-                                                   and v.value.id == params.args.args[-1].arg for v in w.values if True) \
-                    and len(params.args.args) == 2:
-                numbered_fn = name
-    names_in = sorted({x.id for x in ast.walk(e.test) if isinstance(x, ast.Name)} - {"number_columns"})
-    if len(names_in) != 1 or numbered_fn is None:
-        raise Unsupported("header-style selection uses unexpected variables", sel[0])
-    sg = names_in[0]
-    for nc in (True, False):
-        for st in (True, False):
-            chosen = eval(compile(ast.Expression(e), "<sel>", "eval"), {"__builtins__": {}},
-                          {"number_columns": nc, sg: st, **{f: f for f in (n.name for n in ast.walk(fn) if isinstance(n, ast.FunctionDef))}})
-            want_numbered = nc and not st
-            ctx.count(1, {"number_columns": nc, "stopgap block": st, "header": chosen})
-            if (chosen == numbered_fn) != want_numbered:
-                ctx.finding(WR, sel[0], f"with number_columns={nc} and a {'STOPGAP' if st else 'RELION'} block the labels must be "
-                            f"{'numbered' if want_numbered else 'un-numbered'}; the code selects {chosen}", sel[0], m)
-    sgdef = [n for n in ast.walk(fn) if isinstance(n, ast.Assign) and isinstance(n.targets[0], ast.Name) and n.targets[0].id == sg]
+    if not (0 <= consts.find("data_optics") < consts.find("_grp") < consts.find("data_particles") < consts.find("_txt")):
+        ctx.finding(q, fn, "several blocks must be written in the order given, each specifier followed by its own labels", fn, m)
+    rows = [p_ for p_ in pieces if not p_[0]]
     ctx.count(1)
-    if len(sgdef) != 1 or not (isinstance(sgdef[0].value, ast.Compare) and isinstance(sgdef[0].value.ops[0], ast.In)
-                               and isinstance(sgdef[0].value.left, ast.Constant) and sgdef[0].value.left.value == "stopgap"):
-        ctx.finding(WR, sgdef[0] if sgdef else "stopgap flag", "the un-numbered STOPGAP header style must be chosen by the block "
-                    "specifier containing 'stopgap'", sgdef[0] if sgdef else fn, m)
+    if len(rows) == 2 and not (set(tm.symbols(rows[0][1])) <= {"cell0:grp", "cell0:apix", "float_precision"} and
+                                set(tm.symbols(rows[1][1])) <= {"cell1:txt", "cell1:flt", "cell1:num", "float_precision"}):
+        ctx.finding(q, fn, "each block's rows must hold the cells of that block's own table", fn, m)
 
 
 # ---------------------------------------------------------------------------------------------- reader semantics
@@ -627,9 +634,10 @@ def o24(ctx):
 
 def _obligations():
     return [
+        Obligation("O2.5", "writer text: header parses into specifier / loop_ / labels in column order (numbered iff asked and not STOPGAP), a row's line reads back to its cells", o25, floor=200),
         Obligation("O2.1", "library calls on the read/write paths exist in the installed pandas with these keywords/options", o21, floor=3),
         Obligation("O2.2", "writer output templates are tokenised by the reader's constants into the expected token roles", o22, floor=8),
-        Obligation("O2.3", "writer: round(6) before formatting, cell text reads back to the value, no index cell, numbering", o23, floor=30),
+        Obligation("O2.3", "writer: tables rounded to float_precision (default 6) and stored back, block lists not permuted, rows taken by position", o23, floor=3),
         Obligation("O2.4", "reader: all-or-nothing numeric conversion per column on every block; empty block keeps labels", o24, floor=5),
     ]
 
